@@ -250,10 +250,10 @@ func TestC13(t *testing.T) {
 	rec := stat.For("C13")
 	rec.SetRule(c13Rule)
 	rec.Require("stream/nontrivial", "large/total>=2^32")
-	checkProp(t, "C13", "C13/oneshot", pick(300, 6000), func(rt *rapid.T) c13OneShot {
+	checkProp(t, "C13", "C13/oneshot", pick(1000, 300000), func(rt *rapid.T) c13OneShot {
 		return c13OneShot{Data: gen.DrawData(rt, 1<<20, "data"), Off: rapid.IntRange(0, 7).Draw(rt, "off")}
 	}, runC13OneShot)
-	checkProp(t, "C13", "C13/stream", pick(4000, 200000), drawC13Stream, runC13Stream)
+	checkProp(t, "C13", "C13/stream", pick(40000, 4000000), drawC13Stream, runC13Stream)
 }
 
 // TestC13Large walks the 32-bit boundary of the total length: 2^32-1 .. 2^32+16 (quick),
@@ -266,7 +266,11 @@ func TestC13Large(t *testing.T) {
 		cases = append(cases,
 			c13Large{Start: 1<<32 - 1, Chunk: 65521, Steps: 17, PatSeed: uint64(seed) + 1},
 			c13Large{Start: 1<<32 - 1, Chunk: 4099, Steps: 17, PatSeed: uint64(seed) + 2},
-			c13Large{Start: 1<<33 - 1, Chunk: 1 << 20, Steps: 17, PatSeed: uint64(seed) + 3})
+			c13Large{Start: 1<<33 - 1, Chunk: 1 << 20, Steps: 17, PatSeed: uint64(seed) + 3},
+			c13Large{Start: 1<<32 - 17, Chunk: 65537, Steps: 40, PatSeed: uint64(seed) + 4},
+			c13Large{Start: 1<<32 - 1, Chunk: 17, Steps: 17, PatSeed: uint64(seed) + 5},
+			c13Large{Start: 3<<32 - 1, Chunk: 1<<20 - 3, Steps: 17, PatSeed: uint64(seed) + 6},
+			c13Large{Start: 1<<34 - 1, Chunk: 1 << 20, Steps: 17, PatSeed: uint64(seed) + 7})
 	}
 	if nshards > 1 {
 		// one large case per shard
